@@ -1,4 +1,5 @@
 import DcmVerif.Proofs.Key
+import DcmVerif.Props.C13_ext
 /-! Property theorems for C13. Statements only; proofs are by reference to `Proofs/`. -/
 set_option autoImplicit false
 open Cls
